@@ -83,7 +83,7 @@ class LexCompiler(SimpleBuildCommand):
         flags = []
         for i in options:
             if isinstance(i, opts.define):
-                if i.value:
+                if i.value is not None:
                     flags.append('-D' + i.name + '=' + i.value)
                 else:
                     flags.append('-D' + i.name)
